@@ -4,7 +4,8 @@ C09 - spline quadrature weights integrate the interpolant exactly.
 Proof: Props/C09.v (InterpModel.v: ip_integrals = BSplines._build_integrals as written, ip_quad_from =
 get_quadrature_coefficients; InterpTheory.v: duality, weight sum, equal-weights certificate; QuadTheory.v / QuadSumTheory.v: closed form of the
 clamped integrals, weights sum to the domain length on every general space; CirculantTheory.v: equal weights on the
-uniform-cubic periodic path; InterpQc.v: the remaining refutation).
+uniform-cubic periodic path; CubicQuadTheory.v: the uniform-cubic clamped
+integrals and weights sum to ncells*dx for every ncells >= 1; InterpQc.v: positive instances of the three repaired defects).
 
 Tie (the code is numpy/scipy level: it is run on binary64 and every double is converted exactly):
   * BSplines.integrals and the quadrature weights of the code vs. the extracted Qc model run on the code's
@@ -35,7 +36,6 @@ from props import c08
 from props.c08 import qs, fl, EPS, KB, bspl_all, full_knots, space_tag, make_space, build, space_info, spinfo_exact, \
     parse_vec, parse_mat, model_par, head, is_small_periodic
 
-K7 = 'splines._build_integrals:uniform-cubic-clamped-1-2-cells'
 _NC = {}
 
 
@@ -176,10 +176,8 @@ def requests(c, r):
 
 
 def defect_key(spd, cubic):
-    """the one known defect class of the current tree (periodic non-uniform integrals and periodic ncells == degree
-    were repaired in /repo by 38b0bf4 and 6a5dc09: they are ordinary strict cases)"""
-    if cubic and not spd['periodic'] and spd['nc'] <= 2:
-        return K7
+    """no defect class is known on the current tree (periodic non-uniform integrals, periodic ncells == degree and the
+    uniform-cubic clamped 1-2 cell integrals were repaired in /repo by 38b0bf4, 6a5dc09, 974ae9f): every space is strict"""
     return None
 
 
@@ -196,7 +194,7 @@ def check_case(chk, c, r, m, stats):
     sp = spinfo_exact(spd, r)
     p, nb, ncoef = sp['p'], sp['nb'], sp['ncoef']
     known = defect_key(spd, sp['cubic'])
-    cls = ':cubic-clamped-1-2-cells' if known else (':ncells<=degree' if is_small_periodic(spd) else '')
+    cls = ':ncells<=degree' if is_small_periodic(spd) else (':cubic-clamped-1-2-cells' if sp['cubic'] and not spd['periodic'] and spd['nc'] <= 2 else '')
     a, b = [qparse(t) for t in r['domain']]
     L = float(b - a)
     If = [qparse(t) for t in r['integrals'].split()]
@@ -309,8 +307,8 @@ def check_case(chk, c, r, m, stats):
                           dict(rep_i, kind='model-only'), no_input=True)
         if known is None and spd['periodic'] and not spd['uniform'] and not raw:
             stats['periodic_nonuniform_weight_sum_exact_on_model'] += 1
-        if known == K7 and sum(Im) != b - a:
-            stats['model_refutes_cubic_clamped_small'] += 1
+        if sp['cubic'] and not spd['periodic'] and not raw and sum(Im) == b - a:
+            stats['cubic_clamped_integral_sum_exact_on_model'] += 1
         # certificate theorem on uniform periodic spaces
         if 'colloc' in m and m['colloc'].startswith('ok'):
             A = parse_mat(m['colloc'])
@@ -353,7 +351,7 @@ def coq_crosscheck(chk, cases, results, answers):
 
 STATS0 = {'max_ratio_integrals': 0.0, 'max_ratio_weights': 0.0, 'max_ratio_weight_sum': 0.0, 'max_ratio_interpolant': 0.0,
           'integral_formula_clamped_exact': 0, 'duality_exact_on_model': 0, 'equal_weight_certificates': 0,
-          'periodic_nonuniform_weight_sum_exact_on_model': 0, 'model_refutes_cubic_clamped_small': 0}
+          'periodic_nonuniform_weight_sum_exact_on_model': 0, 'cubic_clamped_integral_sum_exact_on_model': 0}
 
 UNCOVERED = [
     'that (t_{j+p+1}-t_j)/(p+1) is the integral of B_j (and, on periodic spaces, that each stored piece is the integral of the '
@@ -363,8 +361,6 @@ UNCOVERED = [
     'all weights equal dx on uniform periodic spaces of degree != 3 (general path): certificate form only '
     '(c09_weights_equal_cert, hypotheses checked per instance on the model); the uniform-cubic path is proved with the checked '
     'inverse as only hypothesis (c09_weights_equal_cubic)',
-    'weights of the uniform-cubic CLAMPED path sum to the domain length: not proved (hard-coded edge values; REFUTED for 1-2 cells: '
-    'c09_integrals_cubic_clamped_small_refuted, known finding); checked exactly on the model for >= 3 cells',
     'rounding, LAPACK / SuperLU transposed solves are not modelled (bounds)',
 ]
 
